@@ -29,7 +29,8 @@ from .. import tlc
 from .c05 import raised_by_real_code
 
 PID = "C07"
-ACTIONS = ["Create", "Iterate", "Patch", "Store", "Load", "Reparam"]
+ACTIONS = ["Create", "Iterate", "Patch", "Store", "Load", "Reparam", "Peek"]
+PEEK_SKIP = ("plat",)          # a reader that does not name the platform sees everything but the platform's name
 DOSINI_VIEW = ("live", "plat", "uv", "sv", "nrep", "iters", "dopt")       # the facts of View a legacy package is compared on
 
 CHUNK = {"dg": 10, "ds": 200, "pg": 40, "ps": 500}          # the variable `chunk` given by each variable layer (spec: ChunkValue)
@@ -85,8 +86,9 @@ def package_files(pk):
         c.update(extra)
         return c
     files = {}
-    comps = [comp("gen", 0, "%(uv)s %(pv)s %(sv)s %(gv)s %(pp)s", variables={"pp": 0},
-                  override={"plat": {"command": {"arguments": "OVR %(uv)s %(pv)s %(sv)s %(gv)s %(pp)s"}}})]
+    comps = [comp("gen", 0, "%(uv)s %(pv)s %(sv)s %(gv)s %(pp)s %(ov)s", variables={"pp": 0, "ov": "c-ov"},
+                  override={"plat": {"command": {"arguments": "OVR %(uv)s %(pv)s %(sv)s %(gv)s %(pp)s %(ov)s"},
+                                     "variables": {"ov": "O-ov", "onlyo": "only"}}})]
     comps[0]["command"]["environment"] = "env1"
     opt = comp("opt", 0, "[%(es)s] %(zero)s %(flag)s")
     if pk.get("ex", "absent") == "empty":         # explicitly empty / zero / false, where the defaults are not
@@ -186,6 +188,18 @@ def project(exp, legacy=False):
     return json.loads(json.dumps(out, sort_keys=True, default=str))
 
 
+def strip_platform(proj):
+    """the projection without the platform's name and without the `override` blocks (they are folded into the component when the
+    description is written and only kept, next to it, for the platform that is named)"""
+    p = json.loads(json.dumps(proj))
+    p.pop("platform", None)
+    for n in p.get("nodes", {}).values():
+        for k in ("raw", "resolved"):
+            if isinstance(n.get(k), dict):
+                n[k].pop("override", None)
+    return p
+
+
 def diff(a, b, path="", out=None, limit=12):
     out = [] if out is None else out
     if len(out) >= limit:
@@ -257,7 +271,7 @@ def observed_view(exp, pk):
     opt = {"hook": ow["restartHookOn"], "shut": ow["shutdownOn"], "retries": ow["repeatRetries"],
            "maxr": -1 if ow["maxRestarts"] is None else ow["maxRestarts"],
            "memo": ow["memoization"]["disable"]["strong"], "es": ov.get("es"), "zero": ov.get("zero"), "flag": ov.get("flag")}
-    return {"opt": opt, "live": True, "plat": wg.configuration.platform_name, "uv": v.get("uv"), "pv": v.get("pv"), "sv": v.get("sv"),
+    return {"opt": opt, "live": True, "plat": wg.configuration.platform_name, "ov": v.get("ov"), "onlyo": v.get("onlyo") or "", "uv": v.get("uv"), "pv": v.get("pv"), "sv": v.get("sv"),
             "nrep": nrep, "wall": int(gen["resourceManager"]["config"]["walltime"]), "ovr": ovr,
             "pp": int(v.get("pp")), "iters": iters,
             "threads": sorted(threads)[0] if len(threads) == 1 else sorted(threads),
@@ -358,6 +372,13 @@ class History:
         self.exp.validateExperiment(checkExecutables=False)
         self.remember()
 
+    def peek(self):
+        """what etest / ememo / ewrap see: the instance directory, no platform, nothing written"""
+        import experiment.model.data
+        e = experiment.model.data.Experiment.experimentFromInstance(self.loc, platform=None, updateInstanceConfiguration=False)
+        e.validateExperiment(checkExecutables=False)
+        return e
+
     def do_patch(self):
         conf = self.exp.configuration
         cur = self.exp.experimentGraph.configurationForNode("stage0.gen", raw=False)["variables"]["pp"]
@@ -407,6 +428,8 @@ def hist_str(hist):
             return "Iterate(%s)" % ("store" if h["flag"] else "nostore")
         if h["a"] == "Load":
             return "Load(%s)" % ("update" if h["flag"] else "readonly")
+        if h["a"] == "Peek":
+            return "Load(without naming the platform, readonly)"
         if h["a"] == "Reparam":
             return "Reparam(%s)" % ("plat" if h["flag"] else "default")
         return h["a"]
@@ -427,6 +450,7 @@ def run_history(args):
     try:
         for i, step in enumerate(hist):
             a, flag = step["a"], step["flag"]
+            subject = None          # the experiment to look at: the live one, or the one a platform-less reader gets
             try:
                 if a == "Create":
                     h.create()
@@ -441,6 +465,8 @@ def run_history(args):
                     h.load(flag)
                 elif a == "Reparam":
                     h.reparam("plat" if flag else "default")
+                elif a == "Peek":
+                    subject = h.peek()
                 else:
                     raise MachineryError("unknown action %s" % a)
             except MachineryError:
@@ -452,10 +478,12 @@ def run_history(args):
                     break
                 raise
             res["steps"] += 1
-            want = expected[i]["mem"]
+            peek = a == "Peek"
+            want = expected[i]["disk" if peek else "mem"]
+            subject = subject or h.exp
             try:
-                got = observed_view(h.exp, pk)
-                after = project(h.exp, dosini_pk) if a == "Load" else None
+                got = observed_view(subject, pk)
+                after = project(subject, dosini_pk) if a in ("Load", "Peek") else None
             except Exception as e:
                 if raised_by_real_code(e):
                     viol("raises-observing-after-%s" % a, i, "reading the configuration of the experiment after %s raised %s: %s" % (
@@ -464,7 +492,7 @@ def run_history(args):
                 raise
             dosini = pk.get("fmt", "flowir") == "dosini"
             keys = DOSINI_VIEW if dosini else [k for k in want if k not in ("lzp", "dopt")]
-            bad = {k: (got[k], want[k]) for k in keys if got[k] != want[k]}
+            bad = {k: (got[k], want[k]) for k in keys if got[k] != want[k] and not (peek and k in PEEK_SKIP)}
             if dosini:
                 if got["_work_uv"] != [(want["uv"],)]:
                     bad["command line of work"] = (got["_work_uv"], want["uv"])
@@ -477,7 +505,7 @@ def run_history(args):
                 if val != wlz:
                     bad["lazy stage variable lz[%s]" % lazy_kind(pk)] = ((it, rep, val), wlz)
                     break
-            exp_args = [want["uv"], want["pv"], want["sv"], "g-" + want["pv"], str(want["pp"])]
+            exp_args = [want["uv"], want["pv"], want["sv"], "g-" + want["pv"], str(want["pp"]), want["ov"]]
             if not dosini and got["_args"] != exp_args:
                 bad["command line of stage0.gen"] = (got["_args"], exp_args)
             if not dosini and got["_work_args"] != [(want["uv"], want["pv"])]:
@@ -488,7 +516,10 @@ def run_history(args):
             fields = "+".join(fields[:3] + (["more"] if len(fields) > 3 else []))
             if fields:
                 acts = [x["a"] for x in hist[:i + 1]]
-                if a == "Load":
+                if peek:
+                    viol("view-after-load-without-platform", i, "the experiment a reader gets without naming the platform differs from the "
+                         "specification of what is stored (observed, specified): %s" % bad, fields)
+                elif a == "Load":
                     viol("view-after-load", i, "the reloaded experiment differs from the specification (observed, specified): %s" % bad, fields)
                 elif a == "Create":
                     # how a package is resolved at creation is the subject of C04; for C07 it is the baseline
@@ -499,6 +530,12 @@ def run_history(args):
                          "on the original (observed, specified): %s" % (a, bad), fields)
                 else:
                     viol("view-after-%s" % a, i, "the experiment in memory differs from the specification (observed, specified): %s" % bad, fields)
+            if peek:
+                d = diff(strip_platform(h.stored_projection), strip_platform(after))
+                if d:
+                    viol("projection-after-load-without-platform", i, "%d difference(s) between the experiment that wrote the directory and what a reader "
+                         "gets without naming the platform: %s" % (len(d), "; ".join(x[:300] for x in d[:4])), diff_class(d[0]))
+                continue                # a read: nothing else changed
             known_bad |= set(bad)       # a divergence is reported where it first shows
             if a == "Load":
                 res["loads"] += 1
@@ -527,18 +564,18 @@ def run_history(args):
 
 
 def cfg_text(platforms, uservars, repls, loops, maxiter, maxpatch, maxlen, emit, props=True, blueprints=("g", "gs", "sP", "all"),
-             empties=("absent", "empty"), formats=("flowir",), stales=(False,), reparam=("default", "plat")):
+             empties=("absent", "empty"), formats=("flowir",), stales=(False,), reparam=("default", "plat"), peek=True):
     def s(xs):
         return "{" + ", ".join(xs) + "}"
-    t = ("CONSTANTS\n  Platforms = %s\n  UserVars = %s\n  Repls = %s\n  LoopsC = %s\n  Blueprints = %s\n  Empties = %s\n  Formats = %s\n  Stales = %s\n  ReparamTo = %s\n  MaxIter = %d\n  MaxPatch = %d\n  MaxLen = %d\n  Emit = %s\n"
+    t = ("CONSTANTS\n  Platforms = %s\n  UserVars = %s\n  Repls = %s\n  LoopsC = %s\n  Blueprints = %s\n  Empties = %s\n  Formats = %s\n  Stales = %s\n  ReparamTo = %s\n  PeekOn = %s\n  MaxIter = %d\n  MaxPatch = %d\n  MaxLen = %d\n  Emit = %s\n"
          "SPECIFICATION Spec\nVIEW view\nCONSTRAINT Bounded\nCHECK_DEADLOCK FALSE\n") % (
         s('"%s"' % p for p in platforms), s('"%s"' % u for u in uservars), s("TRUE" if r else "FALSE" for r in repls),
         s("TRUE" if r else "FALSE" for r in loops), s('"%s"' % b for b in blueprints), s('"%s"' % e for e in empties),
-        s('"%s"' % f for f in formats), s("TRUE" if x else "FALSE" for x in stales), s('"%s"' % q for q in reparam), maxiter, maxpatch, maxlen, "TRUE" if emit else "FALSE")
+        s('"%s"' % f for f in formats), s("TRUE" if x else "FALSE" for x in stales), s('"%s"' % q for q in reparam), "TRUE" if peek else "FALSE", maxiter, maxpatch, maxlen, "TRUE" if emit else "FALSE")
     if props:
         t += ("INVARIANT TypeOK\nINVARIANT CreationOptionsSurvive\nINVARIANT DiskNeverAhead\nINVARIANT ViewIndependentOfOrigin\n"
               "PROPERTY StoreLoadIdentity\nPROPERTY LoadYieldsStored\nPROPERTY LoadStoreIdempotent\nPROPERTY StoreCapturesAll\nPROPERTY IterateCommutesWithReload\n"
-              "PROPERTY PlatformOnlyChangesByReparam\nPROPERTY LastStoreWins\n")
+              "PROPERTY PlatformOnlyChangesByReparam\nPROPERTY LastStoreWins\nPROPERTY PeekIsARead\n")
     if emit:
         t += "ACTION_CONSTRAINT EmitStep\n"
     return t
@@ -619,7 +656,7 @@ def run(tier):
                 blueprints=["g", "gs", "sP", "all"], empties=["absent", "empty"], formats=["flowir", "dosini"], stales=[False, True])
     maxlen, maxiter, maxpatch = 5, 2, 1
     flowir = dict(full, formats=["flowir"], stales=[False], reparam=["default", "plat"])
-    norp = dict(flowir, reparam=[])          # quick: most families without re-parametrisation
+    norp = dict(flowir, reparam=[], peek=False)          # quick: most families without re-parametrisation / platform-less reads
     if thorough:
         families = [
             dict(flowir, reparam=[]),                                                         # all 192 FlowIR packages
@@ -633,13 +670,13 @@ def run(tier):
         families = [
             dict(norp, platforms=["plat"], uservars=["none"], repls=[True], loops=[True], blueprints=["g", "gs", "all"], empties=["empty"]),
             dict(flowir, platforms=["plat"], uservars=["none"], repls=[True], loops=[True], blueprints=["sP"], empties=["empty"]),
-            dict(flowir, platforms=["default"], uservars=["none"], repls=[True], loops=[True], blueprints=["g", "gs"], empties=["absent"], stales=[True]),
-            dict(norp, platforms=["plat"], uservars=["global"], repls=[True], loops=[True], blueprints=["sP"], empties=["absent"]),
+            dict(flowir, platforms=["default"], uservars=["none"], repls=[True], loops=[True], blueprints=["g", "gs"], empties=["absent"], stales=[True], peek=False),
+            dict(norp, platforms=["plat"], uservars=["global"], repls=[True], loops=[True], blueprints=["sP"], empties=["absent"], peek=True),
             dict(norp, platforms=["default"], uservars=["stage"], repls=[False], loops=[True], blueprints=["gs"], empties=["empty"]),
-            dict(norp, loops=[False], blueprints=["gs"]),
-            dict(flowir, uservars=["global"], repls=[True], loops=[False], blueprints=["gs"], empties=["empty"], stales=[True]),
+            dict(norp, loops=[False], blueprints=["gs"], peek=True),
+            dict(flowir, uservars=["global"], repls=[True], loops=[False], blueprints=["gs"], empties=["empty"], stales=[True], peek=False),
             dict(norp, platforms=["plat"], uservars=["none"], repls=[True], loops=[False], blueprints=["g", "sP", "all"], empties=["empty"]),
-            dict(full, platforms=["default"], loops=[False], blueprints=["g"], formats=["dosini"], stales=[False]),
+            dict(full, platforms=["default"], loops=[False], blueprints=["g"], formats=["dosini"], stales=[False], peek=False),
         ]
     # 1. the design (whole family, one step deeper than the histories that are executed)
     c1 = _cfg(os.path.join(gen, "InstanceStore_mc_%s.cfg" % tier), cfg_text(maxiter=maxiter, maxpatch=2, maxlen=maxlen + 2, emit=False, **full))
